@@ -268,6 +268,13 @@ func specState(st map[string]interface{}) obj {
 	for k, v := range st {
 		switch k {
 		case "nv", "wid", "paid", "cover":
+		case "dep": // total (deposited amount) is spec bookkeeping for the ReturnDeposit guard: penalties are not modelled
+			ds := arr{}
+			for _, d := range v.([]interface{}) {
+				m := d.(map[string]interface{})
+				ds = append(ds, obj{"known": m["known"], "locked": m["locked"]})
+			}
+			r[k] = ds
 		case "pend":
 			var pend []string
 			for _, o := range v.([]interface{}) {
